@@ -15,7 +15,8 @@ import vlib, evalgen, evalcheck
 
 IMPORTS = "From YQ Require Import Base.Str Model.Node Spec.MergeSpec."
 FLAG_CHARS = "+d?n"          # bit 0..3, as Spec/MergeSpec.v flags_of
-KEYS = ["a", "b", "c", "d", "e", "k1", "0", "1", "x y", "a*", "?", "*"]    # * and ? are ordinary characters in a merged key
+NUMKEYS = ["007", "0x1F", "1_0", "+5", "-0", "0o17", "42", "1e3", "0b11", "-7", "1.50"]   # strings that spell numbers: still just keys
+KEYS = ["a", "b", "c", "d", "e", "k1", "0", "1", "x y", "a*", "?", "*"] + NUMKEYS    # * and ? are ordinary characters in a merged key
 SCALARS = [0, 1, 2, -1, 7, 100, "", "a", "cat", "xé", None, None, True, False, 1.5, -0.25]
 
 
@@ -243,16 +244,38 @@ class Anchored:
 MERGE = object()      # key of a `<<` entry
 
 
-def yaml_flow(v):
+BARE = set(NUMKEYS + ["0", "1"])
+
+
+def yaml_flow(v, bare=False):
+    """flow-style YAML; bare: keys that spell numbers are written unquoted, so they are tagged !!int / !!float"""
     if isinstance(v, Alias):
         return "*" + v.name + " "
     if isinstance(v, Anchored):
-        return "&" + v.name + " " + yaml_flow(v.value)
+        return "&" + v.name + " " + yaml_flow(v.value, bare)
     if isinstance(v, dict):
-        return "{" + ", ".join(("<<" if k is MERGE else json.dumps(k)) + ": " + yaml_flow(x) for k, x in v.items()) + "}"
+        return "{" + ", ".join(("<<" if k is MERGE else (k if bare and k in BARE else json.dumps(k))) + ": " + yaml_flow(x, bare) for k, x in v.items()) + "}"
     if isinstance(v, list):
-        return "[" + ", ".join(yaml_flow(x) for x in v) + "]"
+        return "[" + ", ".join(yaml_flow(x, bare) for x in v) + "]"
     return json.dumps(v)
+
+
+def seq_paths(v, pre=""):
+    """yq path text of every sequence inside v, with its length"""
+    out = []
+    if isinstance(v, dict):
+        for k, x in v.items():
+            out += seq_paths(x, pre + "[" + json.dumps(k) + "]")
+    elif isinstance(v, list):
+        out.append((pre, len(v)))
+        for i, x in enumerate(v):
+            out += seq_paths(x, pre + "[%d]" % i)
+    return out
+
+
+DERIVE_NESTED = ["(.. | select(kind == \"seq\")) |= reverse", "(.. | select(kind == \"seq\")) |= (. + .)", "(.. | select(kind == \"seq\")) |= .[1:]",
+                 "(.. | select(kind == \"seq\")) |= [.[]]", "(.. | select(kind == \"seq\")) |= (.[1:] + .[:1])"]
+DERIVE_TOP = ["reverse", ". + .", ".[1:]", "[.[]]", ".[1:] + .[:1]", "[.[] | select(. != null)]", "flatten(1)", "unique", "sort_by(tag)"]
 
 
 def sub_maps(v, acc):
@@ -273,6 +296,7 @@ def gen_yaml_doc(rng):
     a, b = gen_pair(rng)
     a, b = json.loads(json.dumps(a)), json.loads(json.dumps(b))
     bx, bs, bv = gen_map(rng, 1), [gen_val(rng, 2) for _ in range(rng.choice([0, 1, 2, 3]))], rng.choice(SCALARS)
+    bare = rng.random() < 0.4
     for side, other in ((a, b), (b, a)):
         maps = sub_maps(side, [])
         for m in maps:
@@ -547,6 +571,84 @@ def run(chk):
                     "the document (anchors, aliases, merge keys) reads differently after evaluating %s" % e)
     chk.extra["yaml_alias_documents"] = ystat
 
+    # ---- keys tagged !!int / !!float (unquoted YAML keys in every number spelling) merge like the same keys as strings
+    nk = 600 if thorough else 50
+    kpairs = [({"007": {"n": "x", "l": True}, "k": 1, "0x1F": {"p": 1}}, {"007": {"n": "b"}, "0x1F": {"q": 2}, "0o17": [1], "1_0": None})]
+    while len(kpairs) < nk:
+        a, b = gen_pair(rng)
+        if any(k in BARE for m in sub_maps(a, []) + sub_maps(b, []) for k in m):
+            kpairs.append((a, b))
+    kreq_j, kreq_y = [], []
+    for a, b in kpairs:
+        for fl in range(16):
+            e = ".a *%s .b" % flag_text(fl)
+            kreq_j.append((e, pair_doc(a, b), False))
+            kreq_y.append({"op": "eval", "expr": e, "input": "a: %s\nb: %s\n" % (yaml_flow(a, True), yaml_flow(b, True)), "in": "yaml", "out": "json", "indent": 0})
+    kj = impl_batch(kreq_j)
+    ky = [evalgen.canon_impl(r) for r in vlib.yqh_parallel(kreq_y)]
+    for (e, _, _), rq, gj, gy in zip(kreq_j, kreq_y, kj, ky):
+        chk.count(("numkey", e, rq["input"]), nontrivial=gj.startswith(b"OK"))
+        if gj != gy:
+            violate({"kind": "yamljson", "expr": e, "yaml": rq["input"], "impl": gy.decode("utf-8", "replace"), "expect": gj.decode("utf-8", "replace")},
+                    "%s on unquoted number-like YAML keys differs from the same merge with string keys" % e)
+
+    # ---- a rebuilt container as RHS (recorded keys are stale there): same result as merging the value it denotes
+    nd = 800 if thorough else 60
+    dcases = []
+    for _ in range(nd):
+        if rng.random() < 0.5:
+            a, b = gen_pair(rng)
+            dcases.append((a, b, rng.choice(DERIVE_NESTED)))
+        else:
+            la = [gen_val(rng, 1) for _ in range(rng.choice([0, 1, 2, 3, 4]))]
+            lb = mutate(la, rng, 0.1, 1) if rng.random() < 0.7 else [gen_val(rng, 1) for _ in range(rng.choice([1, 2, 3, 4]))]
+            dcases.append((la, lb, rng.choice(DERIVE_TOP)))
+    dcases += [([3, 4, 5], [1, 2, 9], "reverse"), ([7, 8, 9], [1, 2, 3, 4], ".[1:3]"), ({"k": [{"z": 0}]}, {"k": [{"x": 1}, {"y": 2}]}, DERIVE_NESTED[0])]
+    dv = impl_batch([(".b | (%s)" % dz, pair_doc(a, b), False) for a, b, dz in dcases])
+    dreq1, dreq2, dmeta = [], [], []
+    for (a, b, dz), vb in zip(dcases, dv):
+        v, okv = first_result(vb)
+        if not okv:
+            chk.count(("derive-err", dz, json.dumps([a, b])), nontrivial=False)
+            continue
+        for fl in range(16):
+            F = flag_text(fl)
+            dreq1.append((".a *%s (.b | (%s))" % (F, dz), pair_doc(a, b), False))
+            dreq2.append((".a *%s .b" % F, pair_doc(a, v), False))
+            dmeta.append((a, b))
+    d1, d2 = impl_batch(dreq1), impl_batch(dreq2)
+    for (e, doc, _), g1, g2 in zip(dreq1, d1, d2):
+        chk.count(("derived", e, doc), nontrivial=g2.startswith(b"OK"))
+        if g1 != g2:
+            violate({"kind": "eval", "expr": e, "doc": json.loads(doc), "impl": g1.decode("utf-8", "replace"), "expect": g2.decode("utf-8", "replace")},
+                    "merging a rebuilt container (%s) differs from merging the value it denotes" % e)
+
+    # ---- operands that read a missing key / an index at or past the end, the merge in a read-only position: the document is unchanged
+    nro = 600 if thorough else 60
+    roreq, rometa = [], []
+    for a, b in (pairs[:len(ADVERSARIAL)] + pairs[len(ADVERSARIAL):][:nro]):
+        doc = pair_doc(a, b)
+        F = flag_text(rng.randrange(16))
+        es = ["(.a *%s .a.zz_missing) as $m | ." % F, "(.a.zz_missing *%s .b) as $m | ." % F, "(.a *%s .b.zz.deeper) as $m | ." % F,
+              ".merged = (.a *%s .b.zz_missing) | del(.merged)" % F, ".same = ((.a.zz_missing *%s .b) == .b) | del(.same)" % F,
+              "[.a *%s .b.zz_missing, .a.zz_missing *%s .b] as $m | ." % (F, F), "(.a | select(. *%s .zz_missing)) as $m | ." % F]
+        for side, v in (("a", a), ("b", b)):
+            for pth, ln in seq_paths(v)[:3]:
+                es.append("(.a *%s .%s%s[%d]) as $m | ." % (F, side, pth, ln))
+                es.append("(.%s%s[%d] *%s .b) as $m | ." % (side, pth, ln + 2, F))
+        for e in es:
+            roreq.append((e, doc, False))
+            rometa.append((a, b))
+    ro = impl_batch(roreq)
+    for (e, doc, _), (a, b), got in zip(roreq, rometa, ro):
+        chk.count(("readonly-operand", e, doc), nontrivial=got.startswith(b"OK"))
+        want = ok_bytes({"a": a, "b": b})
+        if got.startswith(b"OK") and got != want:
+            violate({"kind": "eval", "expr": e, "doc": {"a": a, "b": b}, "impl": got.decode("utf-8", "replace"), "expect": want.decode("utf-8", "replace")},
+                    "evaluating a merge whose operand reads a missing path changed the document: " + e)
+    chk.extra["extra_oracles"] = {"number_key_pairs_x16": len(kreq_j), "derived_rhs_cases_x16": len(dreq1), "readonly_operand_probes": len(roreq),
+                                   "readonly_operand_probes_ok": sum(1 for g in ro if g.startswith(b"OK"))}
+
     # ---- recorded findings: exact inputs, still reproducing?
     probes = impl_batch([(".a *+d .b", pair_doc({"k": [1, 2]}, {"k": [3]}), False),
                          (".a *+d .b", pair_doc({}, {"k": [[1]]}), False),
@@ -604,6 +706,9 @@ def replay(rp):
         return got.decode("utf-8", "replace") == rp["expect"]
     if k == "reduce":
         got = impl_batch([(rp["expr"], "\n".join(json.dumps(d) for d in rp["docs"]), True)])[0]
+        return got.decode("utf-8", "replace") == rp["expect"]
+    if k == "yamljson":
+        got = evalgen.canon_impl(vlib.yqh_parallel([{"op": "eval", "expr": rp["expr"], "input": rp["yaml"], "in": "yaml", "out": "json", "indent": 0}])[0])
         return got.decode("utf-8", "replace") == rp["expect"]
     if k == "yaml":
         st, got = impl_yaml([(rp["expr"], rp["yaml"])])[0]
